@@ -38,6 +38,10 @@ type c26Case struct {
 	// deadline of the listing passes while its entries are still being looked up. A listing may then fail with
 	// a retry-later status, but it may not be cut short and flagged complete.
 	SlowUs int `json:"slow_us,omitempty"`
+	// Where: the directory that is listed - 0 "/dir", 1 the export root itself, 2 "/dir/deep/er" (two more levels)
+	Where int `json:"where,omitempty"`
+	// Entry kinds: every third entry is a directory and every fifth a symlink when Mixed (regular files otherwise)
+	Mixed bool `json:"mixed,omitempty"`
 }
 
 type c26Tight struct {
@@ -54,6 +58,8 @@ func genC26(t *rapid.T) c26Case {
 		c.NameLens = append(c.NameLens, pick(t, "len", 1, 2, 3, 4, 5, 200, 255, 255, 255, rapid.IntRange(1, 255).Draw(t, "l")))
 	}
 	c.Cache = cacheCfg{AttrTTLns: pick(t, "ttl", int64(1), int64(3600e9)), AttrSize: 10000, DirCache: rapid.Bool().Draw(t, "dc")}
+	c.Where = pick(t, "where", 0, 0, 1, 1, 2)
+	c.Mixed = rapid.Bool().Draw(t, "mixed")
 	if rapid.IntRange(0, 9).Draw(t, "slow") == 0 {
 		// (kept small: every page looks all entries up again, each lookup sleeps)
 		c.SlowUs = pick(t, "slow_us", 300, 600)
@@ -116,10 +122,26 @@ func pad4(n int) int { return (n + 3) &^ 3 }
 func runC26(tb stat.TB, c c26Case) {
 	const id, check = "C26", "TestC26"
 	v := vfs.New()
-	v.SeedDir("/dir", 0755, 0, 0)
+	base, walk := "/dir", []string{"dir"}
+	switch c.Where {
+	case 1:
+		base, walk = "", nil
+	case 2:
+		base, walk = "/dir/deep/er", []string{"dir", "deep", "er"}
+	}
+	for i := range walk {
+		v.SeedDir("/"+strings.Join(walk[:i+1], "/"), 0755, 0, 0)
+	}
 	names := c26Names(c.NameLens)
-	for _, n := range names {
-		v.SeedFile("/dir/"+n, 0644, 0, 0, []byte("x"))
+	for i, n := range names {
+		switch {
+		case c.Mixed && i%3 == 1:
+			v.SeedDir(base+"/"+n, 0755, 0, 0)
+		case c.Mixed && i%5 == 2:
+			v.SeedSymlink(base+"/"+n, "nowhere", 0, 0)
+		default:
+			v.SeedFile(base+"/"+n, 0644, 0, 0, []byte("x"))
+		}
 	}
 	opts := newOpts(c.Cache)
 	if c.SlowUs > 0 {
@@ -139,9 +161,12 @@ func runC26(tb stat.TB, c c26Case) {
 	knownTooSmall := false
 	abandoned := guard(func() {
 		root := s.mount()
-		dr := s.nfs(nfsx.ProcLookup, nfsx.ArgsDirop(root, "dir"))
-		if dr.Status != nfsx.OK {
-			tb.Fatalf("harness: lookup dir")
+		dr := &nfsx.Res{Fh: root}
+		for _, comp := range walk {
+			dr = s.nfs(nfsx.ProcLookup, nfsx.ArgsDirop(dr.Fh, comp))
+			if dr.Status != nfsx.OK {
+				tb.Fatalf("harness: lookup %s", comp)
+			}
 		}
 		proc := uint32(nfsx.ProcReaddir)
 		pname := "READDIR"
@@ -309,6 +334,7 @@ func runC26(tb stat.TB, c c26Case) {
 	if knownTooSmall {
 		ls = append(ls, "known_count_below_one_entry")
 	}
+	ls = append(ls, []string{"lists_subdirectory", "lists_export_root", "lists_deep_directory"}[c.Where%3])
 	if tooSmallSeen {
 		ls = append(ls, "toosmall")
 	}
